@@ -172,3 +172,257 @@ void h_lbuf_wr(void)
 	__CPROVER_assert(0, "canary");
 #endif
 }
+
+/* ================================================================== sequence numbers, dirty test, undo heads (C02, C04) */
+struct lbuf *g_xb;	/* what ex_lbuf() returns: the current buffer */
+struct lbuf *ex_lbuf(void)
+{
+	return g_xb;
+}
+
+#define MAXHIST	0x100000	/* 2^20 history entries: bound of the claim (hist_n is int) */
+/* shape of the history table */
+#define HIST_SHAPE(lb)	(0 <= (lb)->hist_u && (lb)->hist_u <= (lb)->hist_n && (lb)->hist_n <= (lb)->hist_sz && \
+	(lb)->hist_sz <= MAXHIST && 0 <= (lb)->useq && (lb)->useq < 0x7ffffff0)
+#define SEQ_AT(lb, u)	((u) ? (lb)->hist[(u) - 1].seq : (lb)->useq_last)
+
+/* ---- lbuf_modified ---- */
+int lbuf_modified_contract(struct lbuf *lb)
+__CPROVER_requires(__CPROVER_is_fresh(lb, sizeof(*lb)) && HIST_SHAPE(lb))
+__CPROVER_requires(lb->hist_sz == 0 || __CPROVER_is_fresh(lb->hist, sizeof(struct lopt) * lb->hist_sz))
+__CPROVER_assigns(lb->useq)
+/* the dirty test: sequence number of the current undo position vs the one recorded at save */
+__CPROVER_ensures(__CPROVER_return_value == (SEQ_AT(lb, lb->hist_u) != lb->useq_zero))
+/* every top-level command bumps the counter exactly once through this function */
+__CPROVER_ensures(lb->useq == __CPROVER_old(lb->useq) + 1)
+;
+
+void h_lbuf_modified(void)
+{
+	struct lbuf *lb;
+	LB_GHOST_INIT();
+	lbuf_modified(lb);
+#ifdef CANARY
+	__CPROVER_assert(0, "canary");
+#endif
+}
+
+/* ---- lopt_done as seen by the loops that release history entries: touches nothing but the heap blocks it frees ---- */
+void lopt_done_contract(struct lopt *lo)
+__CPROVER_requires(lo != 0)
+__CPROVER_assigns()
+;
+
+/* ---- lbuf_saved ---- */
+void lbuf_saved_contract(struct lbuf *lb, int clear)
+__CPROVER_requires(__CPROVER_is_fresh(lb, sizeof(*lb)) && HIST_SHAPE(lb))
+__CPROVER_requires(lb->hist_sz == 0 || __CPROVER_is_fresh(lb->hist, sizeof(struct lopt) * lb->hist_sz))
+/* HIST_OK: no logged sequence number is ahead of the command counter (lbuf_opt logs seq == useq) */
+__CPROVER_requires(SEQ_AT(lb, lb->hist_u) <= lb->useq && lb->useq_last <= lb->useq)
+/* call-site fact: every caller passes the current buffer (the body bumps xb, not lb) */
+__CPROVER_requires(g_xb == lb)
+__CPROVER_assigns(lb->useq, lb->useq_zero, lb->hist_n, lb->hist_u, lb->useq_last)
+/* after a save the buffer tests clean ... */
+__CPROVER_ensures(clear >= 0 ==> SEQ_AT(lb, lb->hist_u) == lb->useq_zero)
+/* ... clear < 0 marks it modified whatever the history holds (sequence numbers are never negative) */
+__CPROVER_ensures(clear < 0 ==> lb->useq_zero == -1)
+/* ... and the counter moves on, so no later edit can share the saved number */
+__CPROVER_ensures(lb->useq > __CPROVER_old(lb->useq) && lb->useq_zero < lb->useq)
+/* clear > 0 drops the whole history, clear <= 0 keeps it */
+__CPROVER_ensures(clear > 0 ? (lb->hist_n == 0 && lb->hist_u == 0 && lb->useq_last == __CPROVER_old(lb->useq))
+	: (lb->hist_n == __CPROVER_old(lb->hist_n) && lb->hist_u == __CPROVER_old(lb->hist_u) &&
+	   lb->useq_last == __CPROVER_old(lb->useq_last)))
+;
+
+void h_lbuf_saved(void)
+{
+	struct lbuf *lb;
+	int clear;
+	LB_GHOST_INIT();
+	g_xb = nondet_ptr();
+	lbuf_saved(lb, clear);
+#ifdef CANARY
+	__CPROVER_assert(0, "canary");
+#endif
+}
+
+/* ================================================================== undo / redo heads (C04) */
+int g_h;		/* witness history index */
+/* lbuf_replace as seen by undo/redo: it splices lines and moves marks; it never touches the
+ * history table, the undo cursor or the sequence counters (frame proved in unit lbuf.replace_frame) */
+void lbuf_replace_frame_contract(struct lbuf *lb, char *s, int pos, int n_del)
+__CPROVER_requires(lb != 0)
+__CPROVER_assigns(lb->ln, lb->ln_glob, lb->ln_n, lb->ln_sz, __CPROVER_object_upto(lb->mark, sizeof(lb->mark)), __CPROVER_object_upto(lb->mark_off, sizeof(lb->mark_off)))
+;
+
+#define HIST_PRE(lb) (__CPROVER_is_fresh(lb, sizeof(*lb)) && HIST_SHAPE(lb) && \
+	(lb->hist_sz == 0 || __CPROVER_is_fresh(lb->hist, sizeof(struct lopt) * lb->hist_sz)))
+
+int lbuf_undo_contract(struct lbuf *lb)
+__CPROVER_requires(HIST_PRE(lb))
+__CPROVER_assigns(lb->hist_u, lb->ln, lb->ln_glob, lb->ln_n, lb->ln_sz, __CPROVER_object_upto(lb->mark, sizeof(lb->mark)), __CPROVER_object_upto(lb->mark_off, sizeof(lb->mark_off)))
+/* at the beginning of history: fails and changes nothing (frame: only hist_u and the line table are assignable at all) */
+__CPROVER_ensures(__CPROVER_old(lb->hist_u) == 0 ==> (__CPROVER_return_value == 1 && lb->hist_u == 0 &&
+	lb->ln == __CPROVER_old(lb->ln) && lb->ln_n == __CPROVER_old(lb->ln_n)))
+/* otherwise: exactly the maximal run of entries carrying the top sequence number is taken back */
+__CPROVER_ensures(__CPROVER_old(lb->hist_u) > 0 ==> (__CPROVER_return_value == 0 && lb->hist_u < __CPROVER_old(lb->hist_u) && lb->hist_u >= 0))
+__CPROVER_ensures((__CPROVER_old(lb->hist_u) > 0 && lb->hist_u <= g_h && g_h < __CPROVER_old(lb->hist_u)) ==>
+	lb->hist[g_h].seq == lb->hist[__CPROVER_old(lb->hist_u) - 1].seq)
+__CPROVER_ensures((__CPROVER_old(lb->hist_u) > 0 && lb->hist_u > 0) ==>
+	lb->hist[lb->hist_u - 1].seq != lb->hist[__CPROVER_old(lb->hist_u) - 1].seq)
+;
+
+int lbuf_redo_contract(struct lbuf *lb)
+__CPROVER_requires(HIST_PRE(lb))
+__CPROVER_assigns(lb->hist_u, lb->ln, lb->ln_glob, lb->ln_n, lb->ln_sz, __CPROVER_object_upto(lb->mark, sizeof(lb->mark)), __CPROVER_object_upto(lb->mark_off, sizeof(lb->mark_off)))
+__CPROVER_ensures(__CPROVER_old(lb->hist_u) == lb->hist_n ==> (__CPROVER_return_value == 1 && lb->hist_u == lb->hist_n &&
+	lb->ln == __CPROVER_old(lb->ln) && lb->ln_n == __CPROVER_old(lb->ln_n)))
+__CPROVER_ensures(__CPROVER_old(lb->hist_u) < lb->hist_n ==> (__CPROVER_return_value == 0 && lb->hist_u > __CPROVER_old(lb->hist_u) && lb->hist_u <= lb->hist_n))
+__CPROVER_ensures((__CPROVER_old(lb->hist_u) < lb->hist_n && __CPROVER_old(lb->hist_u) <= g_h && g_h < lb->hist_u) ==>
+	lb->hist[g_h].seq == lb->hist[__CPROVER_old(lb->hist_u)].seq)
+__CPROVER_ensures((__CPROVER_old(lb->hist_u) < lb->hist_n && lb->hist_u < lb->hist_n) ==>
+	lb->hist[lb->hist_u].seq != lb->hist[__CPROVER_old(lb->hist_u)].seq)
+;
+
+void h_lbuf_undo(void)
+{
+	struct lbuf *lb;
+	LB_GHOST_INIT();
+	g_h = nondet_int();
+	lbuf_undo(lb);
+#ifdef CANARY
+	__CPROVER_assert(0, "canary");
+#endif
+}
+
+void h_lbuf_redo(void)
+{
+	struct lbuf *lb;
+	LB_GHOST_INIT();
+	g_h = nondet_int();
+	lbuf_redo(lb);
+#ifdef CANARY
+	__CPROVER_assert(0, "canary");
+#endif
+}
+
+/* ================================================================== small accessors (C05, C06, C15) */
+char *lbuf_get_contract(struct lbuf *lb, int pos)
+__CPROVER_requires(__CPROVER_is_fresh(lb, sizeof(*lb)) && 0 <= lb->ln_n && lb->ln_n <= MAXLINES)
+__CPROVER_requires(lb->ln_n == 0 || __CPROVER_is_fresh(lb->ln, sizeof(char *) * lb->ln_n))
+__CPROVER_assigns()
+/* line accessors return NULL outside the buffer */
+__CPROVER_ensures((pos < 0 || pos >= lb->ln_n) ==> __CPROVER_return_value == 0)
+__CPROVER_ensures((0 <= pos && pos < lb->ln_n) ==> __CPROVER_return_value == lb->ln[pos])
+;
+
+void h_lbuf_get(void)
+{
+	struct lbuf *lb;
+	int pos;
+	LB_GHOST_INIT();
+	lbuf_get(lb, pos);
+#ifdef CANARY
+	__CPROVER_assert(0, "canary");
+#endif
+}
+
+/* marks: set / jump (C06 "a mark keeps designating the same line") */
+void h_lbuf_mark_jump(void)
+{
+	struct lbuf *lb = malloc(sizeof(*lb));
+	int i, mark = nondet_int(), pos = nondet_int(), off = nondet_int();
+	int other = nondet_int();
+	int p2 = nondet_int(), o2 = nondet_int(), p3 = nondet_int();
+	LB_GHOST_INIT();
+	for (i = 0; i < NMARKS; i++) {
+		lb->mark[i] = nondet_int();
+		lb->mark_off[i] = nondet_int();
+	}
+	__CPROVER_assume(mark >= -128 && mark < 256 && other >= -128 && other < 256);
+	int mi = markidx(mark), oi = markidx(other);
+	__CPROVER_assert(mi >= -1 && mi < NMARKS, "markidx: index inside mark[] or -1");
+	__CPROVER_assert((mark >= 'a' && mark <= 'z') ? mi == mark - 'a' : 1, "markidx: letters map to 0..25");
+	int before = oi >= 0 ? lb->mark[oi] : -2;
+	lbuf_mark(lb, mark, pos, off);
+	if (oi >= 0 && oi != mi)
+		__CPROVER_assert(lb->mark[oi] == before, "lbuf_mark: setting one mark leaves every other mark alone");
+	int r = lbuf_jump(lb, mark, &p2, &o2);
+	if (mi >= 0 && pos >= 0)
+		__CPROVER_assert(r == 0 && p2 == pos && o2 == off, "lbuf_jump: returns the line and offset the mark was set to");
+	if (mi < 0 || pos < 0)
+		__CPROVER_assert(r == 1, "lbuf_jump: an unknown or unset mark fails");
+	int p3_before = p3;
+	if (lbuf_jump(lb, other, &p3, 0))
+		__CPROVER_assert(p3 == p3_before, "lbuf_jump: a failing jump leaves the position alone");
+#ifdef CANARY
+	__CPROVER_assert(0, "canary");
+#endif
+}
+
+/* global-command marks: set / test-and-clear bit dep of one line only (C15) */
+void h_lbuf_glob(void)
+{
+	struct lbuf *lb = malloc(sizeof(*lb));
+	int n = nondet_int(), pos = nondet_int(), dep = nondet_int(), other = nondet_int(), d2 = nondet_int();
+	__CPROVER_assume(n > 0 && n <= MAXLINES && 0 <= pos && pos < n && 0 <= other && other < n);
+	/* precondition established by ec_glob: nesting depth 1..7 (bit of a char) */
+	__CPROVER_assume(0 <= dep && dep < 7 && 0 <= d2 && d2 < 7);
+	lb->ln_n = n;
+	lb->ln_glob = malloc(n);
+	char before_o = lb->ln_glob[other], before_p = lb->ln_glob[pos];
+	lbuf_globset(lb, pos, dep);
+	__CPROVER_assert(lb->ln_glob[pos] & (1 << dep), "lbuf_globset: sets bit dep of the line");
+	__CPROVER_assert(d2 == dep || ((lb->ln_glob[pos] ^ before_p) & (1 << d2)) == 0, "lbuf_globset: leaves the marks of other nesting depths alone");
+	__CPROVER_assert(other == pos || lb->ln_glob[other] == before_o, "lbuf_globset: leaves other lines alone");
+	char mid = lb->ln_glob[pos];
+	int r = lbuf_globget(lb, pos, dep);
+	__CPROVER_assert(r == 1, "lbuf_globget: reports the mark that was set");
+	__CPROVER_assert((lb->ln_glob[pos] & (1 << dep)) == 0, "lbuf_globget: clears bit dep");
+	__CPROVER_assert(d2 == dep || ((lb->ln_glob[pos] ^ mid) & (1 << d2)) == 0, "lbuf_globget: leaves other depths alone");
+	__CPROVER_assert(lbuf_globget(lb, pos, dep) == 0, "lbuf_globget: a cleared mark reads 0 (at most one visit)");
+	__CPROVER_assert(other == pos || lb->ln_glob[other] == before_o, "lbuf_globget: leaves other lines alone");
+#ifdef CANARY
+	__CPROVER_assert(0, "canary");
+#endif
+}
+
+/* lbuf_loadmark as seen by the undo loop: restores at most mark m from a well-formed entry */
+void lbuf_loadmark_contract(struct lbuf *lb, struct lopt *lo, int m)
+__CPROVER_requires(lb != 0 && lo != 0 && 0 <= m && m < NMARKS)
+__CPROVER_assigns(lb->mark[m], lb->mark_off[m])
+;
+
+/* the mark helpers on a well-formed entry (mark arrays NULL or 32 ints each) */
+void h_lbuf_markhelpers(void)
+{
+	struct lbuf *lb = malloc(sizeof(*lb));
+	struct lopt *lo = malloc(sizeof(*lo));
+	int i, m = nondet_int(), k = nondet_int();
+	LB_GHOST_INIT();
+	for (i = 0; i < NMARKS; i++) {
+		lb->mark[i] = nondet_int();
+		lb->mark_off[i] = nondet_int();
+	}
+	lo->mark = 0;
+	lo->mark_off = 0;
+	lo->pos = nondet_int();
+	lo->pos_off = nondet_int();
+	__CPROVER_assume(0 <= m && m < NMARKS && 0 <= k && k < NMARKS);
+	int mk = lb->mark[m], mo = lb->mark_off[m], kk = lb->mark[k];
+	lbuf_savemark(lb, lo, m);
+	__CPROVER_assert(mk < 0 ? lo->mark == 0 : (lo->mark[m] == mk && lo->mark_off[m] == mo), "lbuf_savemark: a set mark is recorded in the entry");
+	__CPROVER_assert(mk < 0 || k == m || lo->mark[k] == -1, "lbuf_savemark: marks not saved read as unset (-1)");
+	lb->mark[m] = nondet_int();
+	lb->mark_off[m] = nondet_int();
+	int before_k = lb->mark[k];
+	lbuf_loadmark(lb, lo, m);
+	__CPROVER_assert(mk < 0 || (lb->mark[m] == mk && lb->mark_off[m] == mo), "lbuf_loadmark: restores the saved line and offset");
+	__CPROVER_assert(k == m || lb->mark[k] == before_k, "lbuf_loadmark: touches only mark m");
+	lbuf_loadpos(lb, lo);
+	__CPROVER_assert(lb->mark[markidx('^')] == lo->pos && lb->mark_off[markidx('^')] == lo->pos_off &&
+		lb->mark[markidx('*')] == lo->pos, "lbuf_loadpos: cursor marks point at the edit position");
+#ifdef CANARY
+	__CPROVER_assert(0, "canary");
+#endif
+}
